@@ -16,9 +16,14 @@ def run_c16(ctx):
     clidir = ctx.path("clitmp")
     os.makedirs(clidir, exist_ok=True)
     ctx.harness("cli-replay", "--bin", ctx.cli_bin, "--dir", clidir, "--cases", info["out"], "--seed", ctx.seed,
-                "--sample", 12 if thorough else 1, "--out", "cli.json", timeout=7200)
-    ctx.load_result("cli.json")
+                "--sample", 12 if thorough else 1, "--trace", ctx.path("cli.ndjson"), "--side", ctx.path("cli.side"),
+                "--out", "cli.json", timeout=7200)
+    rcli = ctx.load_result("cli.json")
     os.unlink(info["out"])
+    # the same runs as observations, judged by TLC
+    vouts = ctx.tlc_trace("TraceCli", "trace_cli", ctx.path("cli.ndjson"), chunks=12)
+    ctx.harness("cli-io-trace-check", "--side", ctx.path("cli.side"), "--verdicts", ",".join(vouts), "--out", "clitrace.json")
+    ctx.load_result("clitrace.json")
     # the concatenating reader: all sources x all read schedules (MultiReader.tla), replayed on the real reader
     rneg = ctx.tlc("MultiReader", "reader_neg", workers=2, timeout=600, must_finish=False)
     if rneg["finished"]:
